@@ -155,6 +155,24 @@ func WriteShards(dir, prop string, cases []string, per int) error {
 	return nil
 }
 
+// keys are interned to N for the model (only equality with the configured secret matters)
+var (
+	keyMu  sync.Mutex
+	keyIDs = map[string]uint64{}
+)
+
+// KeyID is the model's number for a key / secret string.
+func KeyID(k string) uint64 {
+	keyMu.Lock()
+	defer keyMu.Unlock()
+	if v, ok := keyIDs[k]; ok {
+		return v
+	}
+	v := uint64(len(keyIDs) + 1)
+	keyIDs[k] = v
+	return v
+}
+
 func (m MBearer) Coq(bk *Bks) string {
 	if m.Cred == "NoHeader" {
 		return "NoHeader"
@@ -162,10 +180,14 @@ func (m MBearer) Coq(bk *Bks) string {
 	c := m.Claims
 	cl := lib.App("mkclaims", cstr(c.Topic), cstr(c.Prefix), lib.N(bk.ID(c.Booking)), strList(c.Scopes), strList(c.Aud),
 		optZ(c.Exp), optZ(c.Nbf), optZ(c.Iat))
-	return bearerRef(lib.App("Bearer", lib.App("mkbearer", m.Shape, m.Alg, lib.Bool(m.SigOK), cl)))
+	signed := "None"
+	if m.Signed != nil {
+		signed = "(Some " + lib.N(KeyID(*m.Signed)) + ")"
+	}
+	return bearerRef(lib.App("Bearer", lib.App("mkbearer", m.Shape, m.Alg, strList(m.Header), signed, cl)))
 }
 
-func (r Req) Coq(bk *Bks) string {
+func (r Req) Coq(bk *Bks, secret string) string {
 	route := map[string]string{"deny": "RDeny", "allow": "RAllow", "listdeny": "RListDeny", "listallow": "RListAllow",
 		"status": "RStatus", "notfound": "RNotFound", "badmethod": "RBadMethod", "opaque": "ROpaque"}[r.Route]
 	if r.Route == "session" {
@@ -179,13 +201,18 @@ func (r Req) Coq(bk *Bks) string {
 	if r.Exp != nil {
 		exp = "(Some " + cstr(*r.Exp) + ")"
 	}
-	return lib.App("mkreq", route, r.Auth.Classify().Coq(bk), bid, exp)
+	mb := r.Auth.Classify()
+	mb.Header = r.Auth.HeaderNames()
+	if k, ok := r.Auth.SignedKey(secret); ok {
+		mb.Signed = &k
+	}
+	return lib.App("mkreq", route, mb.Coq(bk), bid, exp)
 }
 
-func (o Op) Coq(bk *Bks) string {
+func (o Op) Coq(bk *Bks, secret string) string {
 	switch o.K {
 	case "req":
-		return lib.App("OReq", o.Req.Coq(bk))
+		return lib.App("OReq", o.Req.Coq(bk, secret))
 	case "ws":
 		code := "None"
 		if o.CodeN >= 0 {
@@ -196,6 +223,8 @@ func (o Op) Coq(bk *Bks) string {
 		return lib.App("OLeave", lib.N(uint64(o.Conn)))
 	case "setnow":
 		return lib.App("OSetNow", lib.Z(o.T))
+	case "timers":
+		return "OTimers"
 	}
 	panic("op kind " + o.K)
 }
@@ -249,7 +278,7 @@ func (o Out) Coq() string {
 }
 
 func (c Config) Coq() string {
-	return lib.App("mkconfig", lib.Bool(c.AE), cstr(c.Host), cstr(c.Target), cstr(c.Audience), lib.Z(c.TTL))
+	return lib.App("mkconfig", lib.Bool(c.AE), cstr(c.Host), cstr(c.Target), cstr(c.Audience), lib.Z(c.TTL), lib.N(KeyID(c.Secret)))
 }
 
 // Coq renders the case as a term of type Corr.Access_common.case.
@@ -260,7 +289,7 @@ func (c Case) Coq() string {
 	}
 	ops := make([]string, len(c.Ops))
 	for i, o := range c.Ops {
-		ops[i] = o.Coq(bk)
+		ops[i] = o.Coq(bk, c.Cfg.Secret)
 	}
 	outs := make([]string, len(c.Outs))
 	for i, o := range c.Outs {
